@@ -283,7 +283,7 @@ def run_totals(c, o):
                     if S == 0 and row == 0:
                         continue
                     rt = 5e-4 if wingbox else 1e-5  # wingbox chains contain forward-difference (step 1e-6, one-sided) partials declared by the repository: truncation error up to a few 1e-4 on meshes with short elements (measured per component in C01)
-                    tol = rt * S + 20 * err[sl] + 1e-7 * row / xs
+                    tol = rt * S + 20 * err[sl] + (1e-6 if wingbox else 1e-7) * row / xs  # (small totals that are differences of large terms inherit the absolute error of those terms)
                     ok_fd = err[sl] <= 1e-2 * max(S, 1e-300)
                     diff = np.abs(a[sl] - est[sl])
                     if not ok_fd.all():
